@@ -227,6 +227,11 @@ func (p *PeerScoreParams) validate() error {
 		if p.DecayToZero <= 0 || p.DecayToZero >= 1 || isInvalidNumber(p.DecayToZero) {
 			return fmt.Errorf("invalid DecayToZero; must be between 0 and 1")
 		}
+	} else {
+		// decay settings left unspecified: the scorer's background loop needs a
+		// positive interval (time.NewTicker panics otherwise), use the defaults
+		p.DecayInterval = DefaultDecayInterval
+		p.DecayToZero = DefaultDecayToZero
 	}
 
 	// no need to check the score retention; a value of 0 means that we don't retain scores
